@@ -76,31 +76,46 @@ def run(ctx):
     ctx.ob("V2", EV, "EventSourceProcess", "trigger_d unconditional copy", ok,
            "" if ok else "trigger_d is not an unconditional one-cycle delayed sample of trigger", td[0].line if td else 0)
     want = {"rising": "self.trigger & ~trigger_d", "falling": "~self.trigger & trigger_d"}
-    seen = set()
-    for a in fx.find(domain="sync", target="self.pending"):
-        if a.v != "1":
-            continue
-        edge = None
-        for c, p in a.pyguards:
-            for e in want:
-                if c == f"edge == '{e}'" and p:
-                    edge = e
-        if edge is None:
-            ctx.ob("V2", EV, "EventSourceProcess", "set under a declared edge", False,
-                   f"pending set with pyguards {a.pyguards}: not selected by edge == 'rising'/'falling'", a.line)
-            continue
-        seen.add(edge)
-        G = q.Inliner(fx, a).gformula(a, effective=False)
-        ok = B.equivalent(G, B.from_expr(want[edge]))
-        ctx.ob("V2", EV, "EventSourceProcess", f"{edge} edge guard", ok,
-               "" if ok else f"edge='{edge}' sets pending under {B.show(G)}, not {want[edge]}", a.line)
+    import copy as _copy
+    sets_ = [a for a in fx.find(domain="sync", target="self.pending") if a.v == "1"]
+
+    def for_edge(node, e):
+        """the expression with the Python-level choice on `edge` taken for edge == e"""
+        class X(ast.NodeTransformer):
+            def visit_IfExp(self, n):
+                self.generic_visit(n)
+                t = norm(n.test)
+                for x in want:
+                    if t == f"edge == '{x}'":
+                        return n.body if x == e else n.orelse
+                    if t in (f"not edge == '{x}'", f"edge != '{x}'"):
+                        return n.orelse if x == e else n.body
+                return n
+        return X().visit(_copy.deepcopy(node))
     for e in want:
-        ctx.ob("V2", EV, "EventSourceProcess", f"{e} arm present", e in seen, f"no set arm for edge == '{e}'", 0)
+        other = [x for x in want if x != e][0]
+        # the set assignments that exist when the source is built for edge e
+        mine = [a for a in sets_ if not any((c == f"edge == '{e}'" and not p) or (c == f"edge == '{other}'" and p) for c, p in a.pyguards)]
+        ctx.ob("V2", EV, "EventSourceProcess", f"{e} arm present", bool(mine), f"no set arm for edge == '{e}'", 0)
+        G = B.F
+        for a in mine:
+            g = B.T
+            for c, p in a.guards:
+                f_ = B.from_expr(for_edge(c, e))
+                g = B.And(g, f_ if p else B.Not(f_))
+            G = B.Or(G, q.Inliner(fx, a).inline(g))
+        if mine:
+            ok = B.equivalent(G, B.from_expr(want[e]))
+            ctx.ob("V2", EV, "EventSourceProcess", f"{e} edge guard", ok,
+                   "" if ok else f"edge='{e}' sets pending under {B.show(G)}, not {want[e]}", mine[0].line)
 
     # ---- V4
     fx = fx_of(ctx, EV, "EventSourceLevel")
     for t in ("self.status", "self.pending"):
         ds = fx.find(domain="comb", target=t)
+        if not ds:
+            # driven in a loop over the two mirrors: `for m in (self.status, self.pending): self.comb += m.eq(self.trigger)`
+            ds = [a for a in fx.find(domain="comb") if any(t in it for _, it in a.loops)]
         ok = len(ds) == 1 and not ds[0].guards and ds[0].v == "self.trigger"
         ctx.ob("V4", EV, "EventSourceLevel", f"{t} mirrors trigger", ok, "" if ok else f"{t} is not a plain copy of trigger",
                ds[0].line if ds else 0)
@@ -118,10 +133,7 @@ def run(ctx):
     if len(ds) == 1 and not ds[0].guards:
         v = ds[0].value
         if isinstance(v, ast.Call) and norm(v.func) == "Reduce" and len(v.args) == 2 and norm(v.args[0]) == "'OR'":
-            lc = v.args[1]
-            if isinstance(lc, (ast.ListComp, ast.GeneratorExp)) and len(lc.generators) == 1 and not lc.generators[0].ifs:
-                g = lc.generators[0]
-                ok = norm(g.iter) == "event_managers" and norm(lc.elt) == norm(g.target) + ".irq"
+            ok = q.elementwise(v.args[1]) == ("@.irq", "event_managers")
     ctx.ob("V4", EV, "SharedIRQ", "irq = OR over all managers", ok, "" if ok else f"irq <= {ds[0].v if ds else '?'}")
 
     # ---- V3
@@ -160,15 +172,13 @@ def run(ctx):
     if len(irq) == 1 and not irq[0].guards:
         v = irq[0].value
         if isinstance(v, ast.Call) and norm(v.func) == "Reduce" and len(v.args) == 2 and norm(v.args[0]) == "'OR'":
-            lc = v.args[1]
-            if isinstance(lc, (ast.ListComp, ast.GeneratorExp)) and len(lc.generators) == 1 and not lc.generators[0].ifs:
-                g = lc.generators[0]
-                i = norm(g.target)
-                it = norm(g.iter)
-                terms = B.from_expr(lc.elt)
+            se = q.star_elements(v.args[1])
+            if se and len(se) == 1:
+                elt, i, it = se[0]
+                terms = B.from_expr(elt)
                 need = B.from_expr(f"self.pending.status[{i}] & self.enable.storage[{i}]")
                 ok = B.equivalent(terms, need) and it in ("range(len(sources))", "range(n)")
-                why = f"term {norm(lc.elt)} over {it}"
+                why = f"term {norm(elt)} over {it}"
     ctx.ob("V3", EV, "EventManager", "irq = OR_i pending.status[i] & enable.storage[i]", ok,
            "" if ok else f"irq <= {irq[0].v if irq else '?'} ({why})", irq[0].line if irq else 0)
     # the pending register must be writable from the bus (read_only=False) so that .re/.r exist
